@@ -77,7 +77,12 @@ func c17InlineSrc() string {
 }
 
 // ZZC17Inline: appending "// @ignore CODE" with the displayed code to a diagnostic's line removes it and nothing else.
-func ZZC17Inline() {
+func ZZC17Inline() { c17Inline(2) }
+
+// ZZC17Inline3: any three lines at a time (thorough tier).
+func ZZC17Inline3() { c17Inline(3) }
+
+func c17Inline(maxActive int) {
 	src := c17InlineSrc()
 	holes := []nd.Hole{}
 	on := make([]bool, len(allCodeLines))
@@ -89,7 +94,7 @@ func ZZC17Inline() {
 		on[i] = nd.HasPrefix(v, " @ignore ")
 		active += nd.IteInt(on[i], 1, 0)
 	}
-	nd.Assume(active <= 2) // stated bound: at most two inline markers at a time, all pairs of the 13 lines
+	nd.Assume(active <= maxActive) // stated bound on simultaneously marked lines
 	files := []nd.File{{Pkg: "zzmod/d", Name: "d.go", Src: allSrcD}, {Pkg: "zzmod/u", Name: "u.go", Src: src}}
 	prog := nd.LoadProgram(files, holes)
 	cfg := config.Default()
